@@ -34,7 +34,7 @@ def c03(tier, seed):
 
 def c16(tier, seed):
     return cc.codec_check('C16', tier, seed, ['ber', 'der', 'per', 'uper', 'oer'], ['PREFIX'], ['enc', 'pre'], numerics='0',
-                          model=['PrefixFreeTlv', 'PerPrefixFree'], big=('big', 'quick', 'thorough'))
+                          model=['PrefixFreeTlv', 'PerPrefixFree', 'OerPrefixFree'], big=('big', 'quick', 'thorough'))
 
 
 def c05(tier, seed):
@@ -44,7 +44,7 @@ def c05(tier, seed):
 
 
 def c06(tier, seed):
-    return cc.codec_check('C06', tier, seed, ['oer'], ['OER'], ['enc', 'dec'], numerics='0',
+    return cc.codec_check('C06', tier, seed, ['oer'], ['OER'], ['enc', 'dec'], numerics='0', model=['OerReaderInverts'],
                           fixtures={'quick': (['tests/test_oer.py'], 'not c_source and not ieee1609'),
                                     'thorough': (['tests/test_oer.py', 'tests/test_codecs_consistency.py'], 'not c_source')})
 
